@@ -334,8 +334,10 @@ def run(ctx) -> None:
     ctx.analysed(sched)
     cfg = CFG(sched)
     ctx.paths += cfg.paths_count()
+    from checks.c01 import schedule_roles, _const_name
+    SR = schedule_roles(sched)
     ready = [n for n in cfg.nodes if n.kind == "stmt" and n.ast is not None and any(
-        isinstance(c.func, ast.Attribute) and c.func.attr == "append" and dotted(c.func.value) == "ready"
+        isinstance(c.func, ast.Attribute) and c.func.attr == "append" and dotted(c.func.value) == SR["ready"]
         for c in own_calls(n.ast))]
     fake = match.nodes_calling(cfg, lambda c: last_attr(c) == "_fake_finish_with_state")
     dep_tests = match.test_nodes(cfg, lambda t_: match.polarity_through_locals(
@@ -385,12 +387,19 @@ def run(ctx) -> None:
     ctx.analysed(fsc)
     cfg = CFG(fsc)
     ctx.paths += cfg.paths_count()
+    # roles: the work list (the local whose elements are taken with .pop inside a 'while <it>:' loop) and the list of
+    # components that were staged in (iterated by the loop that calls .run())
+    run_loops = [n for n in source.walk_own(fsc) if isinstance(n, ast.For) and isinstance(n.iter, ast.Name)
+                 and any(last_attr(c) == "run" and not c.args for c in source.calls_in(n))]
+    STAGED = run_loops[0].iter.id if run_loops else "staged_in"
+    wl = [n.test.id for n in source.walk_own(fsc) if isinstance(n, ast.While) and isinstance(n.test, ast.Name)]
+    REMAINING = wl[0] if wl else "remaining"
     pops = [n for n in cfg.nodes if n.kind == "stmt" and isinstance(n.ast, ast.Assign) and isinstance(n.ast.value, ast.Call)
-            and last_attr(n.ast.value) == "pop" and dotted(n.ast.value.func.value) == "remaining"]
+            and last_attr(n.ast.value) == "pop" and dotted(n.ast.value.func.value) == REMAINING]
     ctx.require(bool(pops), "anchor missing: remaining.pop in finalize_submit_components")
     fake2 = match.nodes_calling(cfg, lambda c: last_attr(c) == "_fake_finish_with_state")
     staged_app = match.nodes_calling(cfg, lambda c: isinstance(c.func, ast.Attribute) and c.func.attr == "append"
-                                     and dotted(c.func.value) == "staged_in")
+                                     and dotted(c.func.value) == STAGED)
     loops = [n for n in cfg.nodes if n.kind == "loop"]
     for p in pops:
         rng = cfg.count_range(lambda n: n in fake2 + staged_app, start=p, exits=loops + [cfg.exit], ignore_labels=("exc",))
@@ -404,7 +413,7 @@ def run(ctx) -> None:
                construct="dispositions after remaining.pop = (%d,%d)" % (lo, hi))
     # second phase: each staged-in component is run or restarted
     for lp in [n for n in source.walk_own(fsc) if isinstance(n, ast.For) and isinstance(n.iter, ast.Name)
-               and n.iter.id == "staged_in" and any(last_attr(c) == "run" for c in source.calls_in(n))]:
+               and n.iter.id == STAGED and any(last_attr(c) == "run" for c in source.calls_in(n))]:
         head = [n for n in cfg.nodes if n.kind == "for" and n.ast is lp][0]
         body_first = [m for (m, l2) in head.succ if l2 == "iter"]
         acts = match.nodes_calling(cfg, lambda c: (last_attr(c) == "run" and not c.args) or last_attr(c) == "_restartComponent")
@@ -458,7 +467,8 @@ def run(ctx) -> None:
     ctx.require(len(loops) >= 1, "anchor missing: main 'while True' loop in Controller.run")
     main = loops[0]
     breaks = [n for n in ast.walk(main) if isinstance(n, ast.Break)]
-    act_tests = match.test_nodes(cfg, lambda e: "T" if isinstance(e, ast.Name) and e.id == "active_names" else None)
+    ACTIVE = match.role(runf, lambda v: isinstance(v, ast.Call) and isinstance(v.func, ast.Name) and v.func.id == "get_active_components", "active_names")
+    act_tests = match.test_nodes(cfg, lambda e: "T" if isinstance(e, ast.Name) and e.id == ACTIVE else None)
     for b in breaks:
         bn = cfg.nodes_of(b)
         ok = bool(bn) and bool(act_tests) and all(match.only_via_edges(cfg, x, [(n, "F") for n, _ in act_tests]) for x in bn)
@@ -472,12 +482,13 @@ def run(ctx) -> None:
     ctx.ob("C02.R6-verdict", gac, ok, "activity is decided by node_is_active (comp_done)" if ok else
            "get_active_components no longer uses node_is_active", construct="active = filter(node_is_active, names)")
     # failed components => UnexpectedJobFailureError
-    fvals = match.assigned_value(runf, "failed_components")
+    FAILEDC = match.role(runf, lambda v: isinstance(v, ast.ListComp) and "FAILED_STATE" in source.src(v), "failed_components")
+    fvals = match.assigned_value(runf, FAILEDC)
     okd = any(isinstance(v, ast.ListComp) and "FAILED_STATE" in source.src(v) and ".state" in source.src(v) for v in fvals)
     ctx.ob("C02.R6-verdict", fvals[0] if fvals else runf, okd,
            "failed_components = components of the stage whose state is FAILED" if okd else
            "failed_components is no longer the components in FAILED state")
-    ftests = match.test_nodes(cfg, match_len_positive("failed_components"))
+    ftests = match.test_nodes(cfg, match_len_positive(FAILEDC))
     raises = [n for n in cfg.nodes if n.kind == "stmt" and isinstance(n.ast, ast.Raise) and n.ast.exc is not None
               and "UnexpectedJobFailureError" in source.src(n.ast.exc)]
     ctx.require(bool(raises), "anchor missing: UnexpectedJobFailureError in run")
@@ -501,7 +512,7 @@ def run(ctx) -> None:
         if isinstance(p, ast.For) and r_ in p.orelse:
             brk = [x for x in ast.walk(p) if isinstance(x, ast.Break)]
             cond_ok = any(isinstance(source.parent(b), ast.If) and "FINISHED_STATE" in source.src(source.parent(b).test) for b in brk)
-            ok = cond_ok and isinstance(p.iter, ast.Name) and p.iter.id == "leaf_nodes"
+            ok = cond_ok and isinstance(p.iter, ast.Name) and any(isinstance(v, ast.ListComp) for v in match.assigned_value(runf, p.iter.id))
     ctx.ob("C02.R6-verdict", leaf_raise[0] if leaf_raise else runf, ok,
            "final stage without a FINISHED leaf raises FinalStageNoFinishedLeafComponents" if ok else
            "the final-stage leaf test no longer raises when no leaf FINISHED")
@@ -562,49 +573,54 @@ def _filter_of(v: ast.AST) -> Optional[Tuple[str, str, ast.AST]]:
     return None
 
 
-def _is_state_eq_shutdown(cond: ast.AST, tgt: str) -> bool:
+def _is_state_eq_shutdown(cond: ast.AST, tgt: str, fn: Optional[ast.AST] = None) -> bool:
+    from checks.c01 import _const_name
     cp = match.compare_parts(cond)
     if not cp or not isinstance(cp[1], ast.Eq):
         return False
     l, _, r = cp
     ls = source.src(l)
-    return ls.endswith(".state") and tgt in source.names_in(l) and (dotted(r) or "").endswith("SHUTDOWN_STATE")
+    return ls.endswith(".state") and tgt in source.names_in(l) and _const_name(fn, r) == "SHUTDOWN_STATE"
 
 
 def _shutdown_table(ctx, sched: ast.FunctionDef) -> None:
     rule = "C02.R7-shutdown-table"
+    from checks.c01 import schedule_roles
+    SR = schedule_roles(sched)
+    DEPS, REPL, NREPL, SREPL, SNREPL = (SR[k] for k in ("dependencies", "replica_inputs", "non_replica_inputs", "shutdown_replicas", "shutdown_non_replicas"))
+    local_fns = {n.name for n in ast.walk(sched) if isinstance(n, ast.FunctionDef) and n is not sched}
     defs = {}
-    for nm in ("replica_inputs", "non_replica_inputs", "shutdown_replicas", "shutdown_non_replicas"):
-        vals = match.assigned_value(sched, nm)
+    for nm, actual in (("replica_inputs", REPL), ("non_replica_inputs", NREPL), ("shutdown_replicas", SREPL), ("shutdown_non_replicas", SNREPL)):
+        vals = match.assigned_value(sched, actual)
         ctx.require(len(vals) == 1, "anchor missing: %s in _schedule" % nm)
         defs[nm] = vals[0]
     f = _filter_of(defs["replica_inputs"])
-    ok = bool(f) and f[1] == "dependencies" and isinstance(f[2], ast.Call) and call_name(f[2]) == "producer_is_aggregated"
+    ok = bool(f) and f[1] == DEPS and isinstance(f[2], ast.Call) and call_name(f[2]) in local_fns
     ctx.ob(rule, defs["replica_inputs"], ok, "replica_inputs = dependencies that are replicas/looped" if ok else
            "replica_inputs is no longer the aggregated (replicated or looped) dependencies")
     f = _filter_of(defs["non_replica_inputs"])
-    ok = bool(f) and f[1] == "dependencies" and isinstance(f[2], ast.Compare) and isinstance(f[2].ops[0], ast.NotIn) \
-        and dotted(f[2].comparators[0]) == "replica_inputs"
+    ok = bool(f) and f[1] == DEPS and isinstance(f[2], ast.Compare) and isinstance(f[2].ops[0], ast.NotIn) \
+        and dotted(f[2].comparators[0]) == REPL
     ctx.ob(rule, defs["non_replica_inputs"], ok, "non_replica_inputs = the remaining dependencies" if ok else
            "non_replica_inputs is no longer the complement of replica_inputs within dependencies")
-    for nm, src_name in (("shutdown_replicas", "replica_inputs"), ("shutdown_non_replicas", "non_replica_inputs")):
+    for nm, src_name in (("shutdown_replicas", REPL), ("shutdown_non_replicas", NREPL)):
         f = _filter_of(defs[nm])
-        ok = bool(f) and f[1] == src_name and _is_state_eq_shutdown(f[2], f[0])
+        ok = bool(f) and f[1] == src_name and _is_state_eq_shutdown(f[2], f[0], sched)
         ctx.ob(rule, defs[nm], ok, "%s = members of %s in SHUTDOWN" % (nm, src_name) if ok else
                "%s is no longer the members of %s whose state is SHUTDOWN" % (nm, src_name))
     cfg = CFG(sched)
     fake = match.nodes_calling(cfg, lambda c: last_attr(c) == "_fake_finish_with_state")
     ready = [n for n in cfg.nodes if n.kind == "stmt" and n.ast is not None and any(
-        isinstance(c.func, ast.Attribute) and c.func.attr == "append" and dotted(c.func.value) == "ready"
+        isinstance(c.func, ast.Attribute) and c.func.attr == "append" and dotted(c.func.value) == SR["ready"]
         for c in own_calls(n.ast))]
-    t_non = match.test_nodes(cfg, lambda e: "T" if isinstance(e, ast.Name) and e.id == "shutdown_non_replicas" else None)
-    t_any = match.test_nodes(cfg, lambda e: "T" if isinstance(e, ast.Name) and e.id == "replica_inputs" else None)
+    t_non = match.test_nodes(cfg, lambda e: "T" if isinstance(e, ast.Name) and e.id == SNREPL else None)
+    t_any = match.test_nodes(cfg, lambda e: "T" if isinstance(e, ast.Name) and e.id == REPL else None)
 
     def all_eq(e):
         cp = match.compare_parts(e)
         if cp and isinstance(cp[1], ast.Eq):
             s = {source.src(cp[0]), source.src(cp[2])}
-            if s == {"len(shutdown_replicas)", "len(replica_inputs)"}:
+            if s == {"len(%s)" % SREPL, "len(%s)" % REPL}:
                 return "T"
         return None
     t_all = match.test_nodes(cfg, all_eq)
@@ -616,7 +632,7 @@ def _shutdown_table(ctx, sched: ast.FunctionDef) -> None:
         ctx.ob(rule, defs["shutdown_replicas"], False,
                "no branch tests len(shutdown_replicas) == len(replica_inputs): the 'all replicated inputs are SHUTDOWN' rule "
                "is not the one implemented", construct="len(shutdown_replicas) == len(replica_inputs) (missing)")
-    agg_tests = match.test_nodes(cfg, lambda t: "T" if isinstance(t, ast.Name) and t.id == "is_aggregate" else None)
+    agg_tests = match.test_nodes(cfg, lambda t: "T" if isinstance(t, ast.Name) and t.id == SR["is_aggregate"] else None)
     for (tn, _) in t_non:
         succ = [m for (m, l2) in tn.succ if l2 == "T"]
         rr = cfg.reach(succ, blocked=[n for n in cfg.nodes if n.kind == "for"])
